@@ -547,6 +547,11 @@ def dispatch (kind : String) (args res : List String) : Except String (Findings 
   | "cliargs" => utilKind "command-line parsing and option handling" (CliArgsChk.check args res)
   | "ltsutil" => utilKind "helper classes of the simulation engine" (LtsUtilChk.check args res)
   | "nfas" => NfaStartChk.check args res
+  | "bddpre" => do
+    -- unrestricted BDD histories: judged only INSIDE the exact sharing precondition (model prediction of every dump)
+    let (f, tag) ← BddShareChk.check args res
+    if (tag.splitOn "exact=out").length > 1 then pure ([], "util outside-precondition " ++ tag)
+    else utilKind "BDD table sharing" (pure (f, tag))
   | "cliop" => checkCliOp args res
   | "apisweep" =>
     -- API sweep of C20: nothing functional is judged (a sanitizer report / crash never reaches this point); the tag is
